@@ -335,6 +335,20 @@ class ThrRunner:
                 cb = functools.partial(cb, "front")
                 wa, wk = ("front",) + want_args, want_kwargs
             cell["payload_id"] = lambda seen, wa=wa, wk=wk, pid=payload: pid if (seen[0] == wa and seen[1] == wk) else 10**9
+        if hk == "wrapped" and self.scn.get("c19"):
+            # a decorator in the usual style: accepts (*args, **kwargs), advertises the wrapped function's signature
+            import functools
+
+            def advertised(x=None, a=None, p=None, *rest, **more):  # noqa: ARG001
+                return None
+
+            inner_cb = cb
+
+            @functools.wraps(advertised)
+            def wrapper(*a_, **k_):
+                return inner_cb(*a_, **k_)
+
+            cb = wrapper
         kw = {}
         if args is not None:
             kw["args"] = args
